@@ -260,7 +260,7 @@ func report(o *Options, p *Program, v *Verifier, keys []string, obls []*Obligati
 
 var propNotes = map[string]string{
 	"C01": "termination of interpreter-level loops (for/loop/forall over unbounded programs) and Go stack exhaustion are not contract-expressible here (only loop invariants, no ghost fuel); panics inside trusted stdlib callees; memory exhaustion by many moderate allocations; obligations listed under not_claimed_obligations.",
-	"C02": "operators under functional contract: pop dup exch count index add sub mul abs (plus copy/putinterval overflow safety under C01); composite access, dictionary, comparison, conversion and registry operators have only safety + intpWF contracts; mul overflow promotion is claimed for multiplicands -1, 0, 1 only; float arithmetic treated as real arithmetic.",
+	"C02": "operators under functional contract: pop dup exch count index roll add sub mul abs and or not length get getinterval put putinterval known def begin end (and load). eq/ne, copy, array/string/dict, maxlength, type, cvx, mark/cleartomark/counttomark, definefont/findfont/defineresource/findresource have only safety + intpWF contracts; mul overflow promotion is claimed for multiplicands -1, 0, 1 only; put/putinterval assume the target array is not the operand stack's backing array; float arithmetic treated as real arithmetic.",
 	"C03": "what a procedure body does is abstract (executeOne used through its contract); iteration counts, forall operand order, bind, name-lookup order and ifelse branch selection are not under functional contract.",
 	"C04": "clauses hold while at least four bytes are in memory (composition with refill at buffer boundaries is not proved); that the string under construction never aliases the scanner buffers is an antecedent, not proved; ScanToken dispatch, numbers, names, ASCII85, comments/DSC, String.PS / Name.PS round trips not under contract.",
 	"C05": "transparency of whole programs is the modular consequence of the byte-layer contracts, not a replayed equality; hex de-armouring loop of readByteEexec, readstring byte-exactness, the regurgitate path of BeginEexec and which mode value is stored after detection are not under functional contract.",
